@@ -10,7 +10,7 @@ def ordinal(y, m, d):
     greg = (y, m, d) >= (1582, 10, 15)
     return base - yy // 100 + yy // 400 - 32045 if greg else base - 32083
 
-ERAS = [(1, 200), (1500, 1700), (1950, 2050), (9800, 9999)]
+ERAS = [(1, 200), (1500, 1700), (1890, 2050), (9800, 9999)]   # each Gregorian window contains a century year that is not a leap year
 UNWRAP = [r"@ (std|core)::result::unwrap_failed"]
 
 META = {
